@@ -240,4 +240,37 @@ theorem k_initArrays_eq (lum bk : List Int) (n : Nat) :
     simp only [Gen.K17.initArrays_body1]
     cases setIdx t (i : Int) 0 <;> rfl
 
+/-! ## the bucket-filling loop of `GetBlackRow` -/
+
+when_kernel Gzx.Gen.K17.rowHistogram in
+/-- `for x := 0; x < width; x++ { localBuckets[(localLuminances[x]&0xff)>>LUMINANCE_SHIFT]++ }` on the zeroed histogram that
+    `initArrays` leaves = `Binarizer.histogram` of the first `width` luminances (index panic on a shorter row) -/
+theorem k_rowHistogram_eq (lum : List Nat) (width : Nat) :
+    Gen.K17.rowHistogram (words (histogram [])) width (bytes lum) =
+      if lum.length < width then .error oob else .ok (words (histogram (lum.take width))) := by
+  simp only [Gen.K17.rowHistogram]
+  rw [loop_up_fold' words (K17.histStep lum) 0 width (histogram []) rfl (by rw [tripUp_one]; omega) (by omega)]
+  · rw [K17.foldlM_hist]
+    by_cases h : lum.length < width
+    · simp [h, Except.map]
+    · simp [h, Except.map]
+  · intro x _ _ acc
+    simp only [Gen.K17.rowHistogram_body1, K17.histStep]
+    rw [bytes, idx_bytes]
+    cases lum[x]? with
+    | none => rfl
+    | some p =>
+      simp only [tryC_ok]
+      have eb : ishr (iand ((p : Nat) : Int) 255) 3 = ((bucketOf p : Nat) : Int) := by
+        rw [show (255 : Int) = ((255 : Nat) : Int) from rfl, iand_natCast, show (3 : Int) = ((3 : Nat) : Int) from rfl,
+          ishr_natCast, Nat.shiftRight_eq_div_pow]
+        have : p &&& 255 = p % 256 := Nat.and_two_pow_sub_one_eq_mod p 8
+        rw [this]; rfl
+      rw [eb, updC acc (bucketOf p) (· + 1) _ rfl rfl (fun w => by simp)]
+      cases updWord acc (bucketOf p) (· + 1) <;> rfl
+
+when_kernel Gzx.Gen.K17.rowHistogram in
+example : Gen.K17.rowHistogram (words (histogram [])) 3 (bytes [0, 9, 255]) =
+    .ok (words ((List.replicate 32 0).set 0 1 |>.set 1 1 |>.set 31 1)) := by decide +kernel
+
 end Gzx.Obligations.K17
